@@ -57,6 +57,9 @@ func init() {
 					// very long passwords with a requirement (counts with exponents beyond 2^15)
 					cc = CharCfg{Length: pick(r, []int{32767, 32768, 33000, 40000}), Allow: 7, RequireSets: []string{pick(r, []string{"#", "ab", "7"})}}
 				}
+				if r.Chance(0.006) {
+					cc = genManyReqCfg(r)
+				}
 				if r.Chance(0.1) {
 					cc.Length = pick(r, []int{0, -1, -7})
 				}
